@@ -80,4 +80,24 @@ PROPS = {
             rapid("c20", "TestPropRandom", quick=(60000, 3), thorough=(1000000, 12)),
         ],
     },
+    "C19": {
+        "level": "exploration",
+        "rule": "Part 1: pairs (a,b) of SearchCriteria drawn over every field (seq/UID sets, four date bounds with arbitrary clock in one "
+                "location per case, headers, body, text, flags, not-flags, size bounds incl. unset, NOT and OR sub-trees to depth 2); the "
+                "criteria a.And(b) must match a message iff a and b both match it, for each of 240 messages of a deterministic universe "
+                "that varies every field independently, judged by an independent RFC 9051 6.4.4 matcher. Part 2: SEARCH commands of 1..5 "
+                "top-level keys (all key kinds incl. NEW/OLD/ON/SENTON/NOT/OR/parenthesised lists) sent in EVERY permutation to a real "
+                "imapserver with a recording stub session; the recorded criteria must select exactly the intersection of per-key "
+                "predicates. Non-trivial: both operands constrain the universe and some field is set on one side only (part 1); >=2 keys "
+                "that exclude at least one message (part 2). Distinct by hash of the rendered criteria / key list.",
+        "assumptions": ["ModSeq is outside the quantifier (CONDSTORE not implemented by the server)",
+                        "both operands of And use one time.Location (the type documents only the calendar date as meaningful)",
+                        "Larger/Smaller value 0 means unset (API convention)"],
+        "units": [
+            plain("c19", "TestReplayRegressions"),
+            plain("c19", "TestReplayPermutations"),
+            rapid("c19", "TestPropAndLaw", quick=(12000, 4), thorough=(150000, 10)),
+            rapid("c19", "TestPropSearchPermutations", quick=(1200, 4), thorough=(20000, 6)),
+        ],
+    },
 }
